@@ -268,7 +268,7 @@ def run(ctx):
                 opk = kinds[first_unsafe - 1] if first_unsafe >= 1 else "none"
                 sig = "%s:%s" % (cmd, LABEL.get(opk, "unsafe-after-" + opk))
                 w = dict(short); w["crash_after_ops"] = first_unsafe; w["state"] = states[first_unsafe]
-                viol.append(("%s: a crash after %d of %d backend calls (last: %s) leaves a visible snapshot that cannot be read completely" % (cmd, first_unsafe, len(kinds), opk), w, sig))
+                viol.append(("%s: a crash right after a backend call %s (prefix of the recorded log) leaves a visible snapshot that cannot be read completely" % (cmd, opk), w, sig))
                 if disc or bad + 1 != first_unsafe:
                     broken.append(("the discipline checker does not predict the failing crash point (bad=%d, first unsafe prefix=%d)" % (bad, first_unsafe), case))
                 else:
@@ -301,7 +301,8 @@ def run(ctx):
             if not fin["safe"]:
                 sig = sig_of_bad or "%s:unsafe-state-inside-discipline" % cmd
                 w = dict(short); w["state"] = fin
-                viol.append(("%s: after %s at backend call %s a visible snapshot cannot be read completely" % (cmd, "one failed call" if kind == "fault" else "a crash", run_.get("k")), w, sig))
+                w["k"] = run_.get("k")
+                viol.append(("%s: after %s a visible snapshot cannot be read completely" % (cmd, "one failed backend call" if kind == "fault" else "a crash re-run"), w, sig))
                 if disc:
                     broken.append(("a %s run inside the discipline ends in an unsafe state" % kind, case))
             elif not disc:
